@@ -57,6 +57,8 @@ FIELD_CHOICES = [
     # a PARENTHESISED path is not a path: no Into - the value reaches the field by an ordinary (unsizing) coercion, for
     # which no `From` impl exists
     (SL, '( BYTES )', '(BYTES)'),
+    (SL, 'b"abc"', 'b"abc"'),                      # a byte string is not a string literal: used as written
+    (CH, "'$'", "'$'"),
     (U8, '( N7 )', '(N7)'),
 ]
 
